@@ -331,6 +331,8 @@ func genFaultCase(r *rand.Rand, cfg Cfg) Case {
 	return Case{cfg, ops}
 }
 
+var faultRunner = Runner{Mk: func(c Cfg) Executor { return newFaultSession(c) }}
+
 func famFaults(f *FamCtx) {
 	f.Sig = func(o Outcome) string {
 		if strings.HasPrefix(o.Viol, "KF-delete-shrink: ") {
@@ -342,7 +344,7 @@ func famFaults(f *FamCtx) {
 		return ""
 	}
 	f.Report.Rule = "persisted and partly modified trees without cache; Insert (new / update / equal), Delete, Get, Iter, SeekIter, Clone run with the i-th Persist.Load (i < 8) or the i-th KeyCompare call (i < 30) of that operation failing; if the call returns an error the contents, size and height are re-read through the fault-free view (struct keys add the Marshal callback as a third fault kind) and must be unchanged, then the same call is retried and its result compared with the model; a panic (validateNode panics on a failing comparison) ends the case; non-trivial = reached height >= 1 and changed height"
-	rn := Runner{Mk: func(c Cfg) Executor { return newFaultSession(c) }}
+	rn := faultRunner
 	f.Gen = func() Case {
 		cfg := RandCfg(f.Rand)
 		if f.Rand.Intn(5) == 0 {
@@ -372,6 +374,7 @@ func famFaults(f *FamCtx) {
 			}
 		}
 	}
+	witnesses = append(witnesses, f.TakeCorpus()...)
 	for i := 0; i < n+len(witnesses); i++ {
 		var c Case
 		if i < len(witnesses) {
